@@ -22,6 +22,7 @@ def describe(ck):
     ck.rule("R13a", "detect_alphabet reads only msa->letter_freq (and the quiet flag) and writes only biotype / L; every writer of letter_freq adds to it or zeroes it")
     ck.rule("R13b", "the nucleotide model is seeded with A C G T U N in both cases, both models are case-closed and their loops cover the literals; only letters vote; each nucleotide letter weighs strictly more under the nucleotide model; the larger total selects the matching biotype")
     ck.rule("R13d", "the histogram is fed exactly the characters the readers classify as residues or gap symbols - not names or other text (= R04a)")
+    ck.rule("R13e", "msa.biotype is assigned a kind only by detect_alphabet; elsewhere it is only reset to UNDEF or copied from another msa")
     ck.rule("R13c", "the detected kind gates the alignment type (= R09b)")
     ck.not_decided += ["the quantitative premise 'at least a quarter protein-only letters => protein' (inequality between run-time weighted sums)"]
     ck.assumptions += ["C-locale isalpha"]
@@ -74,6 +75,26 @@ def r13a(ck, prog):
                              "%s changes the histogram by %s: counts must only be added (merging files must commute)" % (
                                  F.name, p.text()[:60] if p is not None else "?"), prog.config)
     ck.floor("R13a", n, 6, "histogram writers")
+
+
+def r13e(ck, prog):
+    """the detected kind is what everything downstream uses: msa.biotype is assigned a kind only by detect_alphabet; anywhere
+    else it is reset to ALN_BIOTYPE_UNDEF or copied from another msa's biotype"""
+    n = 0
+    for F in prog.lib_functions():
+        for a, lhs, rhs in stores_to_field(F.body, "msa", "biotype"):
+            n += 1
+            r = rhs.strip(casts=True)
+            m = macro_of_const(r)
+            where = site(prog, a, "biotype")
+            copy = r.k == "MemberExpr" and r.d.get("field") == "biotype" and r.d.get("rec") == "msa"
+            ck.inst("R13e", where, "%s: biotype = %s" % (F.name, m or r.text()[:30]), prog.config)
+            if F.name == "detect_alphabet" or m == "ALN_BIOTYPE_UNDEF" or copy:
+                continue
+            ck.violation("R13e", "R13e/%s/biotype" % F.name, where,
+                         "%s sets msa->biotype = %s: the kind of sequence is no longer the one recognised from the residue letters "
+                         "(detect_alphabet) when control passes here" % (F.name, m or r.text()[:30]), prog.config)
+    ck.floor("R13e", n, 3, "stores to msa.biotype")
 
 
 _FEVAL_FN = [None]
@@ -388,6 +409,7 @@ def run(ck, progs):
     for cfg, prog in progs.items():
         ck.attempt(r13a, ck, prog)
         ck.attempt(r13b, ck, prog)
+        ck.attempt(r13e, ck, prog)
         from . import c04
         b0 = len(ck.instances)
         ck.attempt(c04.r04a, ck, prog)
